@@ -22,6 +22,7 @@ def main(prop, mk):
         if not m:
             res["error"] = "cannot find run command in demo"; return res
         rx, pkg = m.group(1), m.group(2)
+        race = "-race " if "-race" in m.group(0) else ""
         rc, out = sh("git apply %s/patch.diff" % src, wt)
         res["applies"] = rc == 0
         if rc: res["error"] = out[-500:]; return res
@@ -38,13 +39,13 @@ def main(prop, mk):
             res["suite_passes_with_change_retry"] = not other2
         dst = os.path.join(wt, pkg.lstrip("./"), "zz_seed_demo_test.go")
         shutil.copy(src + "/demo_test.go", dst)
-        rc, out = sh("go test -count=1 -run '%s' %s" % (rx, pkg), wt, 900)
+        rc, out = sh("go test %s-count=1 -run '%s' %s" % (race, rx, pkg), wt, 900)
         res["demo_fails_with_change"] = rc != 0 and "FAIL" in out
         res["demo_out_with"] = out[-400:]
         sh("git checkout -- . ", wt)
-        rc, out = sh("go test -count=1 -run '%s' %s" % (rx, pkg), wt, 900)
+        rc, out = sh("go test %s-count=1 -run '%s' %s" % (race, rx, pkg), wt, 900)
         res["demo_passes_without_change"] = rc == 0
-        res["demo_cmd"] = "go test -count=1 -run '%s' %s   (demo placed as %s)" % (rx, pkg, os.path.relpath(dst, wt))
+        res["demo_cmd"] = "go test %s-count=1 -run '%s' %s   (demo placed as %s)" % (race, rx, pkg, os.path.relpath(dst, wt))
         ok = res["applies"] and res["compiles"] and (res["suite_passes_with_change"] or res.get("suite_passes_with_change_retry")) and res["demo_fails_with_change"] and res["demo_passes_without_change"]
         res["confirmed"] = bool(ok)
         if ok:
